@@ -409,5 +409,45 @@ def r9_merge_builds_new_container(chk: Check) -> None:
         chk.ok("C06.R9", fn, construct, "", fn.loc())
 
 
+def r10_json_spelling_in_style_serializers(chk: Check) -> None:
+    chk.rule("C06.R10", "SIBLINGS-AGREE(spelling of Python-specific values): non-body values are sent with their JSON spelling (`true` / `false` / `null`, jsonify_python_specific_types); the style serializers run BEFORE that step and join list items into one string, so they must use the same spelling themselves - `map(str, items)` / `str(item)` on generated values sends `True,None,False`", floor=3)
+    P = chk.project
+    ser = P.module("specs/openapi/serialization.py")
+    n = 0
+    for fn in ser.functions.values():
+        if isinstance(fn.node, ast.Lambda) or not (any("conversion" in d for d in fn.decorator_names()) or fn.name.startswith("make_")):
+            continue
+        ps = params_of(fn.node)
+        for c in body_calls(fn):
+            is_map_str = isinstance(c.func, ast.Name) and c.func.id == "map" and c.args and isinstance(c.args[0], ast.Name) and c.args[0].id == "str"
+            is_str = isinstance(c.func, ast.Name) and c.func.id == "str" and c.args
+            if not (is_map_str or is_str):
+                continue
+            src = c.args[1] if is_map_str else c.args[0]
+            if not any(isinstance(x, ast.Subscript) and isinstance(x.value, ast.Name) and x.value.id in ps for x in ast.walk(src)) and not any(isinstance(x, ast.Name) and any(isinstance(v, ast.Subscript) for _s, v in assignments_to(fn.node, x.id)) for x in ast.walk(src)):
+                continue
+            n += 1
+            chk.violation("C06.R10", fn, f"{fn.name}: list items keep their JSON spelling",
+                          f"`{unparse(c, 50)}` stringifies the generated items with Python's str(): a list `[True, None, False]` under this style is sent as `True,None,False` - the later jsonify step does not look inside the already joined string, while the same values as scalars (or exploded) go out as `true` / `null`",
+                          fn.loc(c))
+        joins = [c for c in body_calls(fn) if last_attr(c) == "join"]
+        for c in joins:
+            # f"{name}={value}" inside the joined generator: the interpolated loop value is str()-ed by the f-string
+            for comp in (x for x in ast.walk(c) if isinstance(x, (ast.GeneratorExp, ast.ListComp))):
+                loopvars = {t.id for g_ in comp.generators for t in ast.walk(g_.target) if isinstance(t, ast.Name)}
+                raw = [fv for js in ast.walk(comp.elt) if isinstance(js, ast.JoinedStr) for fv in js.values if isinstance(fv, ast.FormattedValue) and isinstance(fv.value, ast.Name) and fv.value.id in loopvars and fv.value.id not in ("key", "name", "k")]
+                if raw:
+                    n += 1
+                    chk.violation("C06.R10", fn, f"{fn.name}: list items keep their JSON spelling",
+                                  f"`{{{raw[0].value.id}}}` is interpolated into the joined text as str(): `True` / `None` instead of `true` / `null`",
+                                  fn.loc(comp))
+        for c in joins:
+            if any(isinstance(x, ast.Call) and isinstance(x.func, ast.Name) and x.func.id == "map" and x.args and isinstance(x.args[0], ast.Name) and x.args[0].id != "str" for x in ast.walk(c)):
+                n += 1
+                chk.ok("C06.R10", fn, f"{fn.name}: list items keep their JSON spelling", "joined through a spelling helper", fn.loc(c))
+    if n < 3:
+        chk.undecided("C06.R10", "<discovery>", f"sites={n}", "fewer delimiter-joined serializers than confirmed by hand")
+
+
 def rules(tier: str) -> list:  # type: ignore[type-arg]
-    return [r1_registries, r2_content_type, r3_quote_all, r3b_template_ownership, r4_header_writers, r5_cookie_pair, r6_no_truthiness_rewrite, r7_sanitizer_on_copies, r8_worklist_pushes_elements, r9_merge_builds_new_container, rfwd_forwarding]
+    return [r1_registries, r2_content_type, r3_quote_all, r3b_template_ownership, r4_header_writers, r5_cookie_pair, r6_no_truthiness_rewrite, r7_sanitizer_on_copies, r8_worklist_pushes_elements, r9_merge_builds_new_container, r10_json_spelling_in_style_serializers, rfwd_forwarding]
